@@ -213,19 +213,94 @@ theorem parentPart_names (w : World) (hw : WF w) : ∀ m ∈ (allEnts w).filterM
     subst hm
     exact ⟨List.mem_map.mpr ⟨e, he, rfl⟩, hw.parents e he p hp⟩
 
+theorem mem_spawnsFirst (l : List Msg) (m : Msg) : m ∈ spawnsFirst l ↔ m ∈ l := by
+  unfold spawnsFirst
+  simp only [List.mem_append, List.mem_filter]
+  constructor
+  · intro h; rcases h with h | h <;> exact h.1
+  · intro h
+    by_cases hs : isSpawn m = true
+    · exact Or.inl ⟨h, hs⟩
+    · exact Or.inr ⟨h, by simpa using hs⟩
+
+theorem spawnIds_filter_spawn (l : List Msg) : spawnIds (l.filter isSpawn) = spawnIds l := by
+  induction l with
+  | nil => rfl
+  | cons m l ih => cases m <;> simp [List.filter, isSpawn, spawnIds, ih]
+
+theorem spawnIds_nonspawn (l : List Msg) (h : ∀ m ∈ l, isSpawn m = false) : spawnIds l = [] := by
+  induction l with
+  | nil => rfl
+  | cons m l ih =>
+    cases m with
+    | spawn u => simpa [isSpawn] using h (.spawn u) (by simp)
+    | comp u t v => simpa [spawnIds] using ih (fun m hm => h m (by simp [hm]))
+    | parent c p => simpa [spawnIds] using ih (fun m hm => h m (by simp [hm]))
+
+theorem scoped_all_spawns : ∀ (l : List Msg) (K : List Nat), (∀ m ∈ l, isSpawn m = true) → Scoped K l
+  | [], _, _ => trivial
+  | .spawn u :: l, K, h => scoped_all_spawns l _ (fun m hm => h m (by simp [hm]))
+  | .comp u t v :: l, K, h => by simpa [isSpawn] using h (.comp u t v) (by simp)
+  | .parent c p :: l, K, h => by simpa [isSpawn] using h (.parent c p) (by simp)
+
+theorem mem_allEnts (w : World) (e : HEnt) : e ∈ allEnts w ↔ ∃ a ∈ w, e ∈ a.ents := by
+  simp [allEnts, List.mem_flatMap]
+
+/-- what `check_entity_components` pushes besides spawns names tracked entities only -/
+theorem nonspawn_names (w : World) : ∀ m ∈ w.flatMap archMsgs, isSpawn m = false → Names (uuids w) m := by
+  intro m hm hs
+  simp only [List.mem_flatMap] at hm
+  obtain ⟨a, ha, hm⟩ := hm
+  unfold archMsgs at hm
+  rw [List.mem_append] at hm
+  rcases hm with hm | hm
+  · simp only [List.mem_map] at hm
+    obtain ⟨e, _, he⟩ := hm
+    subst he
+    simp [isSpawn] at hs
+  · have := compPart_names a [] m hm
+    cases m with
+    | spawn u => simp [isSpawn] at hs
+    | comp u t v =>
+      simp only [Names, List.nil_append, List.mem_map] at this ⊢
+      obtain ⟨e, he, hu⟩ := this
+      exact List.mem_map.mpr ⟨e, (mem_allEnts w e).mpr ⟨a, ha, he⟩, hu⟩
+    | parent c p =>
+      simp only [List.mem_flatMap, List.mem_filterMap, compMsg] at hm
+      obtain ⟨t, _, e, _, hm⟩ := hm
+      cases hl : e.vals.lookup t <;> simp [hl] at hm
+
+/-- the tail of the snapshot — everything behind the spawns — names tracked entities only -/
+theorem tail_names (w : World) (hw : WF w) :
+    ∀ m ∈ (w.flatMap archMsgs).filter (fun m => !isSpawn m) ++ (allEnts w).filterMap parentMsg, Names (uuids w) m := by
+  intro m hm
+  rw [List.mem_append] at hm
+  rcases hm with hm | hm
+  · rw [List.mem_filter] at hm
+    exact nonspawn_names w m hm.1 (by simpa using hm.2)
+  · exact parentPart_names w hw m hm
+
+theorem snapshot_eq (w : World) :
+    snapshot w = (w.flatMap archMsgs).filter isSpawn ++
+      ((w.flatMap archMsgs).filter (fun m => !isSpawn m) ++ (allEnts w).filterMap parentMsg) := by
+  simp [snapshot, snapshotG, spawnsFirst, List.append_assoc]
+
 theorem snapshot_scoped (w : World) (hw : WF w) : Scoped [] (snapshot w) := by
-  unfold snapshot
-  apply scoped_archs
-  simpa using scoped_of_names _ _ (parentPart_names w hw)
+  rw [snapshot_eq]
+  apply scoped_append
+  · exact scoped_all_spawns _ _ (fun m hm => (List.mem_filter.mp hm).2)
+  · rw [spawnIds_filter_spawn, spawnIds_archs]
+    simpa using scoped_of_names _ _ (tail_names w hw)
 
 theorem spawnIds_snapshot (w : World) (hw : WF w) : spawnIds (snapshot w) = uuids w := by
-  unfold snapshot
-  rw [spawnIds_append, spawnIds_archs, spawnIds_of_names _ _ (parentPart_names w hw)]; simp
+  rw [snapshot_eq, spawnIds_append, spawnIds_filter_spawn, spawnIds_archs,
+    spawnIds_of_names _ _ (tail_names w hw)]
+  simp
 
 theorem comp_mem_snapshot (w : World) (u t v : Nat) :
     Msg.comp u t v ∈ snapshot w ↔ ∃ a ∈ w, t ∈ a.types ∧ ∃ e ∈ a.ents, e.uuid = u ∧ e.vals.lookup t = some v := by
-  unfold snapshot
-  simp only [List.mem_append, List.mem_flatMap, archMsgs, List.mem_map, List.mem_filterMap, compMsg, parentMsg]
+  unfold snapshot snapshotG
+  simp only [if_true, List.mem_append, mem_spawnsFirst, List.mem_flatMap, archMsgs, List.mem_map, List.mem_filterMap, compMsg, parentMsg]
   constructor
   · intro h
     rcases h with ⟨a, ha, h | h⟩ | h
@@ -245,8 +320,8 @@ theorem comp_mem_snapshot (w : World) (u t v : Nat) :
 
 theorem parent_mem_snapshot (w : World) (c p : Nat) :
     Msg.parent c p ∈ snapshot w ↔ ∃ e ∈ allEnts w, e.uuid = c ∧ e.parent = some p := by
-  unfold snapshot
-  simp only [List.mem_append, List.mem_flatMap, archMsgs, List.mem_map, List.mem_filterMap, compMsg, parentMsg]
+  unfold snapshot snapshotG
+  simp only [if_true, List.mem_append, mem_spawnsFirst, List.mem_flatMap, archMsgs, List.mem_map, List.mem_filterMap, compMsg, parentMsg]
   constructor
   · intro h
     rcases h with ⟨a, _, h | h⟩ | h
@@ -282,9 +357,6 @@ theorem find_of_functional {α : Type} (l : List α) (p : α → Bool) (x : α) 
   cases h : l.find? p with
   | none => exact absurd hp (by simpa using (List.find?_eq_none.mp h) x hx)
   | some y => rw [hf y (List.mem_of_find?_eq_some h) (List.find?_some h)]
-
-theorem mem_allEnts (w : World) (e : HEnt) : e ∈ allEnts w ↔ ∃ a ∈ w, e ∈ a.ents := by
-  simp [allEnts, List.mem_flatMap]
 
 /-- **the snapshot rebuilds the host's world on a fresh joiner**: the joiner knows exactly the host's tracked uuids (each once,
 in snapshot order), holds for every entity and every component type exactly the value the host listed (nothing where the
@@ -385,6 +457,56 @@ theorem snapshot_rebuilds (w : World) (hw : WF w) :
 theorem snapshot_nothing_else (w : World) (hw : WF w) (u : Nat) (hu : u ∉ uuids w) :
     u ∉ (applyAll {} (snapshot w)).ents := by
   rw [(snapshot_rebuilds w hw).1]; exact hu
+
+/-! ### every entity is known before anything that can name it is handled — however the list is cut into frames -/
+
+theorem scoped_prefix : ∀ (pre post : List Msg) (K : List Nat), Scoped K (pre ++ post) → Scoped K pre
+  | [], _, _, _ => trivial
+  | .spawn u :: pre, post, K, h => by
+    simp only [List.cons_append, Scoped] at *
+    exact scoped_prefix pre post _ h
+  | .comp u t v :: pre, post, K, h => by
+    simp only [List.cons_append, Scoped] at *
+    exact ⟨h.1, scoped_prefix pre post _ h.2⟩
+  | .parent c p :: pre, post, K, h => by
+    simp only [List.cons_append, Scoped] at *
+    exact ⟨h.1, scoped_prefix pre post _ h.2⟩
+
+/-- in the snapshot every `EntitySpawn` precedes every other message: whatever stands before a component or a parent pair
+contains the spawn of **every** tracked entity (repair of D21) -/
+theorem spawns_precede (w : World) (hw : WF w) (pre post : List Msg) (m : Msg)
+    (h : snapshot w = pre ++ m :: post) (hm : isSpawn m = false) : spawnIds pre = uuids w := by
+  rw [snapshot_eq, List.append_eq_append_iff] at h
+  rcases h with ⟨a', h1, h2⟩ | ⟨c', h1, h2⟩
+  · -- pre = spawns ++ a', a' a prefix of the tail
+    rw [h1, spawnIds_append, spawnIds_filter_spawn, spawnIds_archs]
+    have : spawnIds a' = [] := by
+      apply spawnIds_of_names a' (uuids w)
+      intro x hx
+      exact tail_names w hw x (by rw [h2]; simp [hx])
+    rw [this]; simp
+  · -- the spawns would reach beyond `pre`: then `m` is one of them, or `pre` is exactly the spawns
+    cases c' with
+    | nil =>
+      simp only [List.append_nil] at h1
+      rw [← h1, spawnIds_filter_spawn, spawnIds_archs]
+    | cons x xs =>
+      simp only [List.cons_append, List.cons.injEq] at h2
+      have : m ∈ (w.flatMap archMsgs).filter isSpawn := by rw [h1, h2.1]; simp
+      have := (List.mem_filter.mp this).2
+      rw [hm] at this
+      cases this
+
+/-- … so the joiner knows every entity of the host when it handles any component or parent pair of the snapshot — in the frame
+in which that message arrives and in every later one, however the ordered channel cuts the snapshot into frames.  A component
+that names other entities (the joints of a `SkinnedMesh`, resolved through the uuid map when it is applied at the end of that
+frame) finds all of them. -/
+theorem all_known_when_handled (w : World) (hw : WF w) (pre post : List Msg) (m : Msg)
+    (h : snapshot w = pre ++ m :: post) (hm : isSpawn m = false) : (applyAll {} pre).ents = uuids w := by
+  have hsc : Scoped [] pre := scoped_prefix pre (m :: post) [] (by rw [← h]; exact snapshot_scoped w hw)
+  rw [(applyAll_scoped pre {} hsc).1, spawns_precede w hw pre post m h hm]
+  have := addAll_fresh (uuids w) [] (by simpa [uuids] using hw.nodup)
+  simpa using this
 
 /-! ### a client that returns still holding a world -/
 
